@@ -124,6 +124,8 @@ pub struct Out {
     pub distinct: BTreeSet<u64>,
     pub notes: Vec<String>,
     next_id: u64,
+    started: std::time::Instant,
+    budget_s: f64,
 }
 
 impl Out {
@@ -147,6 +149,8 @@ impl Out {
             distinct: BTreeSet::new(),
             notes: vec![],
             next_id: 0,
+            started: std::time::Instant::now(),
+            budget_s: std::env::var("VERIF_BUDGET_S").ok().and_then(|s| s.parse::<f64>().ok()).unwrap_or(if std::env::var("VERIF_TIER").map(|t| t == "thorough").unwrap_or(false) { 1500.0 } else { 200.0 }),
         }
     }
     pub fn thorough(&self) -> bool {
@@ -173,9 +177,14 @@ impl Out {
             eprintln!("case {id}");
         }
         match &self.only {
-            None => true,
+            None => self.started.elapsed().as_secs_f64() <= self.budget_s,
             Some(o) => o == id,
         }
+    }
+    /// wall-clock budget of one harness run (case generation stops once it is used up; the number of cases actually
+    /// run is in the counters, so a slow machine shortens the exploration instead of running into the check's timeout)
+    pub fn over_budget(&self) -> bool {
+        self.only.is_none() && self.started.elapsed().as_secs_f64() > self.budget_s
     }
     pub fn count(&mut self, key: &str) {
         *self.counters.entry(key.to_string()).or_insert(0) += 1;
@@ -230,13 +239,17 @@ impl Out {
             )
             .unwrap();
         }
+        let mut counters = self.counters.clone();
+        if self.over_budget() {
+            counters.insert("time_budget_reached_s".to_string(), self.budget_s as u64);
+        }
         let mut f = std::fs::File::create(format!("{dir}/stats.json")).unwrap();
         writeln!(
             f,
             "{}",
             json!({
                 "property": self.prop, "seed": self.seed, "tier": self.tier,
-                "counters": self.counters, "samples": self.samples,
+                "counters": counters, "samples": self.samples,
                 "distinct_nontrivial": self.distinct.len(), "notes": self.notes,
             })
         )
